@@ -32,3 +32,14 @@ package schedulers
 //@   at CreateMovePeerOperator 1 assert [moves-to-an-up-store-without-a-peer] arg5 != nil && arg5.StoreId == storeIdOf(plan.target) && ufb("clusterStore", plan.cluster, plan.target) && storeStateOf(plan.target) == 0 && !hasPeerOn(plan.region, arg5.StoreId) && arg2 == plan.region
 //@   at CreateMovePeerOperator 1 assert [from-the-source-keeping-the-role] callres("GetStorePeer", 1) != nil ==> arg4 == storeIdOf(plan.source) && arg5.Role == callres("GetStorePeer", 1).Role && arg5.StoreId != arg4
 //@   modifies *
+
+// Hot-region scheduler: a hot peer is MOVED (add, then remove) from the source store to the destination store with the
+// role it had on the source store, and leadership is only transferred to a store that holds a voter of the region.
+//@ opaque github.com/tikv/pd/server/schedule/operator::CreateMoveLeaderOperator, github.com/tikv/pd/server/schedule/operator::CreateTransferLeaderOperator, github.com/tikv/pd/server/statistics::(*HotPeerStat).ID
+//@ func (*balanceSolver).buildOperator
+//@   props C11
+//@   requires bs != nil && bs.cur != nil && bs.sche != nil && (bs.cur.region != nil ==> bs.cur.region.meta != nil && nonnil(bs.cur.region.meta.Peers) && nonnil(bs.cur.region.voters))
+//@   at CreateMovePeerOperator 1 assert [moved-peer-keeps-its-role] arg2 == bs.cur.region && arg4 == bs.cur.srcStoreID && arg5 != nil && arg5.StoreId == bs.cur.dstStoreID && arg5.Role == callres("GetStorePeer", 1).Role && bs.cur.srcStoreID != 0 && bs.cur.dstStoreID != 0
+//@   at CreateMoveLeaderOperator 1 assert [moved-leader-keeps-its-role] arg2 == bs.cur.region && arg4 == bs.cur.srcStoreID && arg5 != nil && arg5.StoreId == bs.cur.dstStoreID && arg5.Role == callres("GetStorePeer", 1).Role
+//@   at CreateTransferLeaderOperator 1 assert [leader-only-to-a-voter-store] arg2 == bs.cur.region && arg3 == bs.cur.srcStoreID && arg4 == bs.cur.dstStoreID && callres("GetStoreVoter", 1) != nil
+//@   modifies *
